@@ -82,7 +82,10 @@ def path_key(n):
 class Interp:
     """interpreter over a concrete environment of atoms"""
 
-    def __init__(self, func, env, string_as_int=True, opaque_ok=True, callbacks=None):
+    def __init__(self, func, env, string_as_int=True, opaque_ok=True, callbacks=None, prog=None,
+                 depth=0):
+        self.prog = prog
+        self.depth = depth
         self.func = func
         self.env = dict(env)
         self.locals = {}
@@ -257,6 +260,27 @@ class Interp:
             return 0 if self.ev_obj(kids[1]) else 1
         if k in ('CXXConstructExpr', 'CXXTemporaryObjectExpr') and len(kids) == 1:
             return self.ev_obj(kids[0])      # copy / conversion construction
+        # const member functions of the same object / static helpers of the repository: inline
+        if self.prog is not None and self.depth < 4 and n.get('ckey') in self.prog.by_key and \
+                not n.get('virtcall'):
+            g = self.prog.by_key[n['ckey']][0]
+            is_this = False
+            if k == 'CXXMemberCallExpr' and kids and kids[0].get('k') == 'MemberExpr':
+                objn = children(kids[0])
+                is_this = bool(objn) and strip_casts(objn[0]).get('k') == 'CXXThisExpr'
+            if (is_this or g.cls is None or g.d.get('static')) and g.body is not None:
+                args = kids[1:]
+                sub = Interp(g, self.env, callbacks=self.callbacks, prog=self.prog, depth=self.depth + 1)
+                for p, a in zip(g.params, args):
+                    sub.locals[p['name']] = self.ev_obj(a)
+                try:
+                    out = sub.run(g.body)
+                finally:
+                    pass
+                self.env.update({k2: v for k2, v in sub.env.items()})
+                if out[0] == 'throw':
+                    raise Throw(out[1])
+                return out[1]
         if not self.opaque_ok:
             raise Unsupported('call to %s at line %s' % (callee, n.get('l')))
         return self.atom(path_key(n), self.kind_of(n))
@@ -375,7 +399,7 @@ def constants_in(func):
 
 
 def truth_table(func, oracle=None, fixed=None, extra_domain=(), max_atoms=6, callbacks=None,
-                bool_atoms=(), body=None):
+                bool_atoms=(), body=None, prog=None):
     """enumerate all assignments; returns list of (env, outcome).  Atoms are
     discovered on demand.  `fixed` pre-binds atoms."""
     consts = constants_in(func)
@@ -410,7 +434,7 @@ def truth_table(func, oracle=None, fixed=None, extra_domain=(), max_atoms=6, cal
         for combo in itertools.product(*doms):
             env = dict(fixed)
             env.update({a[0]: v for a, v in zip(atoms, combo)})
-            it = Interp(func, env, callbacks=callbacks)
+            it = Interp(func, env, callbacks=callbacks, prog=prog)
             try:
                 out = it.run(body or func.body)
             except NeedAtom as na:
